@@ -46,12 +46,13 @@ struct Machine {
     int live_count() const { int n = 0; for (int i = 0; i < NSLOTS; i++) if (ptr[i]) n++; return n; }
     int pick_live(int j) const { for (int d = 0; d < NSLOTS; d++) if (ptr[(j + d) % NSLOTS]) return (j + d) % NSLOTS; return j % NSLOTS; } // arguments refer to live slots whenever one exists
 
-    std::vector<std::string>* log = nullptr;   // optional transcript (C20)
+    std::vector<std::string>* log = nullptr;   // optional transcript (C20, C15)
+    int garbage_override = -1;                 // fill byte of fresh blocks (C15 compares two fills)
     void start(bool first_inject = true, bool set_features = true) {
         for (int s = 0; s < 2; s++) { for (auto& b : deps::kit(s).live) free(b.first); deps::kit(s).live.clear(); /* nothing of an earlier (failed) case may leak into this one */
-            deps::kit(s).reset_all(); deps::kit(s).kdf_key_salt = 0x1111u * (unsigned)(s + 1); deps::kit(s).garbage = (uint8_t)(0xA7 + 0x31 * s); }
+            deps::kit(s).reset_all(); deps::kit(s).kdf_key_salt = 0x1111u * (unsigned)(s + 1); deps::kit(s).garbage = garbage_override >= 0 ? (uint8_t)garbage_override : (uint8_t)(0xA7 + 0x31 * s); }
         cur = 0; opt = deps::OPT_ALL; if (first_inject) deps::inject(0, deps::OPT_ALL);
-        if (set_features) { mask = 0; polyseed_enable_features(0); }
+        if (set_features) { mask = 0; polyseed_enable_features(7); polyseed_enable_features(0); }   // through a known non-default state, so a case never depends on its predecessor
     }
     void release(int i) { // free through the library
         if (!ptr[i]) return; polyseed_data* p = ptr[i];
